@@ -58,7 +58,7 @@ class Pool:
                         continue
                     if w['c'] in ready:
                         try:
-                            results[w['task']] = w['c'].recv()
+                            results[w['task']] = w['c'].recv() + (round(time.time() - w['t0'], 2),)
                         except (EOFError, ConnectionResetError):
                             results[w['task']] = ('err', 'worker died')
                             w['p'].kill()
